@@ -71,12 +71,34 @@ package route
 //@ define distinctStrs(xs []string) bool = forall i int, j int :: 0 <= i && i < j && j < len(xs) ==> xs[i] != xs[j]
 //@ define inStrs(xs []string, k string) bool = exists i int :: 0 <= i && i < len(xs) && xs[i] == k
 
+// C08/C02: a bind name is used at most once along a route. Every tree node carries the ghost set of the bind names
+// defined by itself and its ancestors; a node's own binds are not in its parent's set.
+//@ ghost field baseTree.upBinds map[string]bool
+//@ define parentUp(n *baseTree, s string) bool = n.parent != nil && nodeOf(n.parent).upBinds[s]
+//@ ghost field regexTree.bindIdx map[string]int   // for an own bind: its index in binds
+//@ ghost field Segment.scratchIdx map[string]int   // scratch of newTree's loop (copied into the new node)
+//@ define bindsRegex(x *regexTree) bool =
+//@     (forall k int :: 0 <= k && k < len(x.binds) ==> x.upBinds[x.binds[k]] && !parentUp(&x.baseTree, x.binds[k])) &&
+//@     (forall s string :: parentUp(&x.baseTree, s) ==> x.upBinds[s]) &&
+//@     (forall s string :: x.upBinds[s] && !parentUp(&x.baseTree, s) ==> 0 <= x.bindIdx[s] && x.bindIdx[s] < len(x.binds) && x.binds[x.bindIdx[s]] == s)
+//@ define bindsPlain(n *baseTree) bool = forall s string :: n.upBinds[s] <==> parentUp(n, s)
+// a Tree value that is a bare *baseTree is a root-like node: it defines no bind of its own
+//@ define bareOK(t Tree) bool = dyn(t) == type(*baseTree) ==> bindsPlain(t.(*baseTree))
+//@ define bindsOne(n *baseTree, b string) bool = !parentUp(n, b) && (forall s string :: n.upBinds[s] <==> (s == b || parentUp(n, s)))
+
 //@ define treeWF() bool =
 //@     (forall n *baseTree :: live(n) ==> nodeOK(n)) &&
 //@     (forall l *baseLeaf :: live(l) ==> leafOK(l)) &&
-//@     (forall s *staticTree :: live(s) ==> s.segment != nil) &&
-//@     (forall x *regexTree :: live(x) ==> x.regexp != nil && reGroups(x.regexp) == len(x.binds) && distinctStrs(x.binds) && allocated(x.binds)) &&
-//@     (forall y *regexLeaf :: live(y) ==> y.regexp != nil && reGroups(y.regexp) == len(y.binds) && distinctStrs(y.binds) && allocated(y.binds)) &&
+//@     (forall s *staticTree :: live(s) ==> s.segment != nil && bindsPlain(&s.baseTree)) &&
+//@     (forall p *placeholderTree :: live(p) ==> bindsOne(&p.baseTree, p.bind)) &&
+//@     (forall m *matchAllTree :: live(m) ==> bindsOne(&m.baseTree, m.bind)) &&
+//@     (forall n *baseTree :: live(n) && n.parent != nil ==> bareOK(n.parent)) &&
+//@     (forall l *baseLeaf :: live(l) && l.parent != nil ==> bareOK(l.parent)) &&
+//@     (forall x *regexTree :: live(x) ==> x.regexp != nil && reGroups(x.regexp) == len(x.binds) && distinctStrs(x.binds) && allocated(x.binds) && bindsRegex(x)) &&
+//@     (forall y *regexLeaf :: live(y) ==> y.regexp != nil && reGroups(y.regexp) == len(y.binds) && distinctStrs(y.binds) && allocated(y.binds) &&
+//@          (forall k int :: 0 <= k && k < len(y.binds) ==> !nodeOf(y.parent).upBinds[y.binds[k]])) &&
+//@     (forall pl *placeholderLeaf :: live(pl) ==> !nodeOf(pl.parent).upBinds[pl.bind]) &&
+//@     (forall ml *matchAllLeaf :: live(ml) ==> !nodeOf(ml.parent).upBinds[ml.bind]) &&
 //@     (forall g *Segment :: live(g) ==> segOK(g)) &&
 //@     (forall q *Route :: live(q) ==> routeOK(q))
 
@@ -297,12 +319,49 @@ package route
 //@   props C08
 //@   ensures dyn(result) == type(*baseTree) && fresh(result)
 //@   ensures len(result.(*baseTree).subtrees) == 0 && len(result.(*baseTree).leaves) == 0 && result.(*baseTree).parent == nil
+//@   ensures bareOK(result)
 
+// getBinds: the own bind names of a node, in order
+//@ define nOwnBinds(t Tree) int = ite(dyn(t) == type(*regexTree), len(t.(*regexTree).binds), ite(dyn(t) == type(*placeholderTree) || dyn(t) == type(*matchAllTree), 1, 0))
+//@ iface Tree.getBinds(this) r
+//@   requires treeWF() && isTree(this)
+//@   allocates
+//@   ensures len(r) == nOwnBinds(this)
+//@   ensures dyn(this) == type(*placeholderTree) ==> r[0] == this.(*placeholderTree).bind
+//@   ensures dyn(this) == type(*matchAllTree) ==> r[0] == this.(*matchAllTree).bind
+//@   ensures dyn(this) == type(*regexTree) ==> forall k int :: 0 <= k && k < len(r) ==> r[k] == this.(*regexTree).binds[k]
+//@ func (*regexTree).getBinds
+//@   props C08 C02
+//@   ensures len(result) == len(t.binds) && fresh(result)
+//@   ensures forall k int :: 0 <= k && k < len(result) ==> result[k] == t.binds[k]
+//@ func (*placeholderTree).getBinds
+//@   props C08 C02
+//@   ensures len(result) == 1 && result[0] == t.bind
+//@ func (*matchAllTree).getBinds
+//@   props C08 C02
+//@   ensures len(result) == 1 && result[0] == t.bind
+
+// the result is exactly the set of bind names defined by the given node and its ancestors
 //@ func getParentBindSet
-//@   props C08
-//@   requires treeWF() && (parent == nil || isTree(parent))
+//@   props C08 C02
+//@   requires treeWF() && (parent == nil || (isTree(parent) && bareOK(parent)))
 //@   ensures result != nil && fresh(result)
-//@   loop 0 invariant treeWF() && (ancestor == nil || isTree(ancestor)) && bindSet != nil && fresh(bindSet)
+//@   ensures[C08,C02] forall s string :: has(result, s) <==> (parent != nil && nodeOf(parent).upBinds[s])
+// (instances of the tree invariant for the node just visited, stated once so that the step to its parent goes through)
+//@   assert before getParent#0: dyn(ancestor) == type(*placeholderTree) ==> bindsOne(nodeOf(ancestor), ancestor.(*placeholderTree).bind)
+//@   assert before getParent#0: dyn(ancestor) == type(*matchAllTree) ==> bindsOne(nodeOf(ancestor), ancestor.(*matchAllTree).bind)
+//@   assert before getParent#0: dyn(ancestor) == type(*staticTree) ==> bindsPlain(nodeOf(ancestor))
+//@   assert before getParent#0: dyn(ancestor) == type(*regexTree) ==> bindsRegex(ancestor.(*regexTree))
+//@   assert before getParent#0: dyn(ancestor) == type(*baseTree) ==> bindsPlain(nodeOf(ancestor))
+//@   loop 0 invariant treeWF() && (ancestor == nil || (isTree(ancestor) && bareOK(ancestor))) && bindSet != nil && fresh(bindSet)
+//@   loop 0 invariant[C08,C02] forall s string :: (parent != nil && nodeOf(parent).upBinds[s]) <==> (has(bindSet, s) || (ancestor != nil && nodeOf(ancestor).upBinds[s]))
+//@   loop 1 invariant treeWF() && isTree(ancestor) && bareOK(ancestor) && bindSet != nil && fresh(bindSet)
+//@   loop 1 invariant[C08,C02] (dyn(ancestor) == type(*placeholderTree) && rangeindex >= 0 ==> has(bindSet, ancestor.(*placeholderTree).bind)) &&
+//@       (dyn(ancestor) == type(*matchAllTree) && rangeindex >= 0 ==> has(bindSet, ancestor.(*matchAllTree).bind)) &&
+//@       (dyn(ancestor) == type(*regexTree) ==> forall k int :: 0 <= k && k <= rangeindex ==> has(bindSet, ancestor.(*regexTree).binds[k]))
+//@   loop 1 invariant[C08,C02] forall s string :: has(bindSet, s) ==> (has(pre(bindSet), s) || nodeOf(ancestor).upBinds[s])
+//@   loop 1 invariant[C08,C02] forall s string :: has(pre(bindSet), s) ==> has(bindSet, s)
+//@   loop 1 invariant[C08,C02] forall s string :: (parent != nil && nodeOf(parent).upBinds[s]) <==> (has(pre(bindSet), s) || nodeOf(ancestor).upBinds[s])
 
 // nonCapturing is a pure function of its argument (its result is what the regexp facts below speak about).
 //@ func nonCapturing
@@ -330,8 +389,8 @@ package route
 //@   loop 1 invariant fresh(binds) && buf != nil && fresh(buf) && countGroups(buf.content) == len(binds)
 
 //@ func newLeaf
-//@   props C08 C01
-//@   requires treeWF() && isTree(parent) && routeWF(r) && optLast(r) && s != nil && h != nil
+//@   props C08 C01 C02
+//@   requires treeWF() && isTree(parent) && bareOK(parent) && routeWF(r) && optLast(r) && s != nil && h != nil
 //@   modifies Segment.str, Segment.strOnce.fired
 //@   ensures treeWF()
 //@   ensures result1 == nil ==> result0 != nil && fresh(result0)
@@ -340,13 +399,16 @@ package route
 //@   loop 0 invariant treeWF() && parentBindSet != nil && fresh(parentBindSet)
 //@   loop 0 invariant forall a int, b int :: 0 <= a && a < b && b <= rangeindex ==> binds[a] != binds[b]
 //@   loop 0 invariant forall a int :: 0 <= a && a <= rangeindex ==> has(parentBindSet, binds[a])
+//@   loop 0 invariant[C08,C02] forall a int :: 0 <= a && a <= rangeindex ==> !pre(has(parentBindSet, binds[a]))
+//@   loop 0 invariant[C08,C02] forall t string :: pre(has(parentBindSet, t)) ==> has(parentBindSet, t)
 
 // some ancestor (or the tree itself) is a match-all subtree
 //@ define allAnc(t Tree) bool = t != nil && (style(t) == 4 || allAnc(nodeOf(t).parent))
 
 //@ func newTree
-//@   props C08 C01
-//@   requires treeWF() && isTree(parent) && s != nil
+//@   props C08 C01 C02
+//@   modifies s.scratchIdx
+//@   requires treeWF() && isTree(parent) && bareOK(parent) && s != nil
 //@   ensures treeWF()
 //@   ensures len(s.Elements) == 0 ==> result1 != nil
 //@   ensures result1 == nil && style(result0) == 4 ==> !old(allAnc(parent))
@@ -357,6 +419,19 @@ package route
 //@   loop 1 invariant treeWF() && parentBindSet != nil && fresh(parentBindSet)
 //@   loop 1 invariant forall a int, b int :: 0 <= a && a < b && b <= rangeindex ==> binds[a] != binds[b]
 //@   loop 1 invariant forall a int :: 0 <= a && a <= rangeindex ==> has(parentBindSet, binds[a])
+// the set grows by the segment's own binds only, none of which an ancestor defines; scratchIdx remembers where each came from
+//@   loop 1 invariant[C08,C02] forall t string :: pre(has(parentBindSet, t)) ==> has(parentBindSet, t)
+//@   loop 1 invariant[C08,C02] forall a int :: 0 <= a && a <= rangeindex ==> !pre(has(parentBindSet, binds[a]))
+//@   loop 1 invariant[C08,C02] forall t string :: has(parentBindSet, t) && !pre(has(parentBindSet, t)) ==> 0 <= s.scratchIdx[t]
+//@   loop 1 invariant[C08,C02] forall t string :: has(parentBindSet, t) && !pre(has(parentBindSet, t)) ==> s.scratchIdx[t] <= rangeindex
+//@   loop 1 invariant[C08,C02] forall t string :: has(parentBindSet, t) && !pre(has(parentBindSet, t)) ==> binds[s.scratchIdx[t]] == t
+//@   ghost before mapupdate#0: s.scratchIdx[binds[rangeindex]] = rangeindex
+//@   ghost before exit: nodeOf(result0).upBinds = ite(result1 != nil, nodeOf(result0).upBinds,
+//@       ite(dyn(result0) == type(*staticTree), nodeOf(parent).upBinds,
+//@       ite(dyn(result0) == type(*placeholderTree), mapput(nodeOf(parent).upBinds, result0.(*placeholderTree).bind, true),
+//@       ite(dyn(result0) == type(*matchAllTree), mapput(nodeOf(parent).upBinds, result0.(*matchAllTree).bind, true),
+//@           dom(parentBindSet)))))
+//@   ghost before exit: result0.(*regexTree).bindIdx = ite(result1 == nil && dyn(result0) == type(*regexTree), s.scratchIdx, result0.(*regexTree).bindIdx)
 
 //@ define routeWF(r *Route) bool = r != nil && len(r.Segments) >= 1 && (forall k int :: 0 <= k && k < len(r.Segments) ==> r.Segments[k] != nil)
 
@@ -376,7 +451,7 @@ package route
 //@       (forall k int :: 0 <= k && k < i ==> leaves[k] == nodeOf(t).snapLeaves[k]) && (forall k int :: i < k && k < len(leaves) ==> leaves[k] == nodeOf(t).snapLeaves[k - 1])
 //@   assert[C01] before setLeaves#0: (forall k int :: 0 <= k && k < i ==> leafStyle(nodeOf(t).snapLeaves[k]) <= leafStyle(leaf)) &&
 //@       (i < len(nodeOf(t).leaves) ==> leafStyle(leaf) < leafStyle(nodeOf(t).snapLeaves[i]))
-//@   requires treeWF() && isTree(t) && routeWF(r) && optLast(r) && s != nil && h != nil
+//@   requires treeWF() && isTree(t) && bareOK(t) && routeWF(r) && optLast(r) && s != nil && h != nil
 //@   modifies baseTree.leaves, baseTree.snapLeaves, elems(type([]Leaf)), Segment.str, Segment.strOnce.fired, Route.str, Route.strOnce.fired
 //@   ensures treeWF()
 //@   ensures result1 == nil ==> result0 != nil && leafBase(result0).headerMatcher == nil && leafBase(result0).segment == s && leafBase(result0).route == r
@@ -402,9 +477,9 @@ package route
 //@       (forall k int :: 0 <= k && k < i ==> subtrees[k] == nodeOf(t).snapTrees[k]) && (forall k int :: i < k && k < len(subtrees) ==> subtrees[k] == nodeOf(t).snapTrees[k - 1])
 //@   assert[C01] before setSubtrees#0: (forall k int :: 0 <= k && k < i ==> style(nodeOf(t).snapTrees[k]) <= style(subtree)) &&
 //@       (i < len(nodeOf(t).subtrees) ==> style(subtree) < style(nodeOf(t).snapTrees[i]))
-//@   requires treeWF() && isTree(t) && routeWF(r) && h != nil && 0 <= next && next + 1 < len(r.Segments)
+//@   requires treeWF() && isTree(t) && bareOK(t) && routeWF(r) && h != nil && 0 <= next && next + 1 < len(r.Segments)
 //@   requires forall k int :: 0 <= k && k <= next ==> !r.Segments[k].Optional
-//@   modifies baseTree.leaves, baseTree.subtrees, baseTree.snapLeaves, baseTree.snapTrees, elems(type([]Leaf)), elems(type([]Tree)), Segment.str, Segment.strOnce.fired, Route.str, Route.strOnce.fired
+//@   modifies baseTree.leaves, baseTree.subtrees, baseTree.snapLeaves, baseTree.snapTrees, Segment.scratchIdx, elems(type([]Leaf)), elems(type([]Tree)), Segment.str, Segment.strOnce.fired, Route.str, Route.strOnce.fired
 //@   ensures treeWF()
 //@   ensures result1 == nil ==> result0 != nil && leafBase(result0).headerMatcher == nil && leafBase(result0).segment == r.Segments[len(r.Segments) - 1] && leafBase(result0).route == r
 //@   ensures result1 != nil ==> result0 == nil
@@ -418,9 +493,9 @@ package route
 //@   ensures[C08] result1 != nil ==> forall n *baseTree, k int :: old(live(n)) && 0 <= k && k < len(old(n.subtrees)) ==> n.subtrees[k] == old(n.subtrees[k])
 //@   ensures[C08] result1 != nil ==> forall n *baseTree, k int :: old(live(n)) && 0 <= k && k < len(old(n.leaves)) ==> n.leaves[k] == old(n.leaves[k])
 //@   ensures len(r.Segments) > next + 1 && r.Segments[next].Optional ==> result1 != nil
-//@   requires treeWF() && isTree(t) && routeWF(r) && h != nil && 0 <= next && next < len(r.Segments)
+//@   requires treeWF() && isTree(t) && bareOK(t) && routeWF(r) && h != nil && 0 <= next && next < len(r.Segments)
 //@   requires forall k int :: 0 <= k && k < next ==> !r.Segments[k].Optional
-//@   modifies baseTree.leaves, baseTree.subtrees, baseTree.snapLeaves, baseTree.snapTrees, elems(type([]Leaf)), elems(type([]Tree)), Segment.str, Segment.strOnce.fired, Route.str, Route.strOnce.fired
+//@   modifies baseTree.leaves, baseTree.subtrees, baseTree.snapLeaves, baseTree.snapTrees, Segment.scratchIdx, elems(type([]Leaf)), elems(type([]Tree)), Segment.str, Segment.strOnce.fired, Route.str, Route.strOnce.fired
 //@   ensures treeWF()
 //@   ensures result1 == nil ==> result0 != nil && leafBase(result0).headerMatcher == nil && leafBase(result0).segment == r.Segments[len(r.Segments) - 1] && leafBase(result0).route == r
 //@   ensures result1 != nil ==> result0 == nil
@@ -431,8 +506,8 @@ package route
 //@   ensures[C08] result1 != nil ==> forall n *baseTree :: old(live(n)) ==> n.subtrees == old(n.subtrees) && n.leaves == old(n.leaves)
 //@   ensures[C08] result1 != nil ==> forall n *baseTree, k int :: old(live(n)) && 0 <= k && k < len(old(n.subtrees)) ==> n.subtrees[k] == old(n.subtrees[k])
 //@   ensures[C08] result1 != nil ==> forall n *baseTree, k int :: old(live(n)) && 0 <= k && k < len(old(n.leaves)) ==> n.leaves[k] == old(n.leaves[k])
-//@   requires treeWF() && isTree(t) && h != nil && (r == nil || len(r.Segments) == 0 || routeWF(r))
-//@   modifies baseTree.leaves, baseTree.subtrees, baseTree.snapLeaves, baseTree.snapTrees, elems(type([]Leaf)), elems(type([]Tree)), Segment.str, Segment.strOnce.fired, Route.str, Route.strOnce.fired
+//@   requires treeWF() && isTree(t) && bareOK(t) && h != nil && (r == nil || len(r.Segments) == 0 || routeWF(r))
+//@   modifies baseTree.leaves, baseTree.subtrees, baseTree.snapLeaves, baseTree.snapTrees, Segment.scratchIdx, elems(type([]Leaf)), elems(type([]Tree)), Segment.str, Segment.strOnce.fired, Route.str, Route.strOnce.fired
 //@   ensures treeWF()
 //@   ensures result1 == nil ==> result0 != nil && r != nil && len(r.Segments) >= 1 && leafBase(result0).headerMatcher == nil && leafBase(result0).segment == r.Segments[len(r.Segments) - 1] && leafBase(result0).route == r
 //@   ensures result1 != nil ==> result0 == nil
